@@ -31,6 +31,7 @@ mod c17_sets;
 mod c09;
 mod c03;
 mod c18;
+mod c08;
 
 pub(in crate::program) fn bare_program<'p>(arena: &'p Arena) -> Program<'p> {
     let str_interner = StrInterner::new();
@@ -167,3 +168,21 @@ macro_rules! eval_stubs_call {
     };
 }
 pub(in crate::program) use eval_stubs_call;
+
+// ---------------------------------------------------------------------------------------------------
+// Single iterations of the real `Evaluator::run` loop (DESIGN.md section 11.4).
+// ---------------------------------------------------------------------------------------------------
+impl<'p, 'a> Evaluator<'a, 'p> {
+    /// Stub for `Evaluator::report_error` in run-step harnesses: same error kind, empty stack trace (the real
+    /// one walks the whole state stack through `get_stack_trace`, whose result is not the subject there).
+    pub(in crate::program) fn kstub_report_error(&self, error_kind: EvalErrorKind) -> Box<EvalError> {
+        Box::new(EvalError { stack_trace: Vec::new(), kind: error_kind })
+    }
+}
+
+impl<'p> Program<'p> {
+    /// Stub for `Program::maybe_gc` in run-step harnesses: no collection happens during the step (the
+    /// collection schedule is not part of any claim made by these harnesses).
+    pub(in crate::program) fn kstub_maybe_gc(&mut self) {}
+}
+
